@@ -402,7 +402,9 @@ def handleProgram (j : Json) : Except String Verdict := do
   let iterRanks := (traces.filter (fun e => e.2 == "iter")).map (·.1)
   let mut spec := true
   let mut why := ""
-  if offErr then spec := false; why := why ++ "kernel fails with collection off; "
+  -- a kernel that fails the same way with collection off is not a matter of this property (tagged, not judged)
+  if offErr && on.compress != off.compress then
+    spec := false; why := why ++ "transparent: the kernel fails with collection off and behaves differently with collection on; "
   if onErr && !offErr then
     spec := false
     why := why ++ (if (errLine.splitOn "insert_pos is not None").length > 1 then
@@ -431,7 +433,8 @@ def handleProgram (j : Json) : Except String Verdict := do
     (if !soloU.isEmpty then ["dense-walk"] else []) ++
     (if fIntD j "repeat" 1 == 2 then ["applied-twice"] else []) ++ (if fIntD j "pre" 0 == 1 then ["operands-reused-across-sessions"] else []) ++
     (if fIntD j "inside" 0 == 1 then ["built-inside-bracket"] else []) ++ (if fIntD j "bare" 0 == 1 then ["unowned-fiber-operand"] else []) ++
-    (if c15_getN wrap "update" > 0 then ["effectual"] else []) ++ (if onErr then ["aborts"] else []) ++
+    (if c15_getN wrap "update" > 0 then ["effectual"] else []) ++ (if onErr then ["aborts"] else []) ++ (if offErr then ["fails-off-too"] else []) ++
+    (if fStrD j "kind" "" == "chunked" then [s!"first-pos-{fIntD j "first_pos" (-1)}"] else []) ++
     (if traces.isEmpty then ["traces-none"] else [])
   pure { agree := true, spec, tags, why }
 
@@ -442,6 +445,7 @@ def handleC15 (j : Json) : Except String Verdict := do
   | "api" => C15.handleApi j
   | "kernel" => C15.handleKernel j
   | "program" => C15.handleProgram j
+  | "chunked" => C15.handleProgram j
   | k => throw s!"C15: unknown kind {k}"
 
 end FtDriver
